@@ -22,6 +22,7 @@ struct H {
     std::vector<long> must_wake;        // wait instance that has been notified for sure (0: none)
     std::vector<int> qstate;            // per actor, for its current wait: 0 in the queue unless timed out, 1 already notified (dequeued), 2 unknown
     long notified_total = 0, waits_ok = 0, instance_counter = 0;
+    long unlocked_in_flight = 0, unlocked_epoch = 0;   // notify calls issued without the lock, possibly running on another vCPU right now
     long notify_in_flight = 0;          // upper bound of wake-ups by notify calls that have started but not returned
     std::set<std::string> labels;
     bool nt = false;
@@ -77,15 +78,19 @@ struct H {
             bool all = r[0] == OP_NOTIFY_ALL;
             C.st[id].phase = all ? "notify_all" : "notify_one";
             std::vector<int> sure, maybe, cand;
+            long epoch0 = 0; bool unlocked_overlap = false;
+            if (!locked) { unlocked_in_flight++; unlocked_epoch++; }
             if (locked) {
                 L_lock(id);
+                epoch0 = unlocked_epoch; unlocked_overlap = unlocked_in_flight > 0;
                 for (int j = 0; j < C.nactors(); j++) if (waiting[j] && qstate[j] != 1) cand.push_back(j);   // 1: an earlier notification already dequeued it
             }
             // classified after the call: a waiter whose deadline is still ahead of the true clock when the
             // notify call has RETURNED cannot have left the queue by timeout before or during the call
             auto classify = [&]() {
+                if (unlocked_epoch != epoch0) unlocked_overlap = true;
                 for (int j : cand) {
-                    if (qstate[j] == 0 && (deadline[j] == 0 || deadline[j] > ctl.vnow + 2)) sure.push_back(j); else maybe.push_back(j);
+                    if (!unlocked_overlap && qstate[j] == 0 && (deadline[j] == 0 || deadline[j] > ctl.vnow + 2)) sure.push_back(j); else maybe.push_back(j);
                 }
             };
             if (!all) {
@@ -127,7 +132,7 @@ struct H {
                 if (!maybe.empty()) { nt = true; labels.insert("timeout_and_notify_raced_on_one_waiter"); }
                 if (!sure.empty()) labels.insert("notify_found_waiters");
                 L_unlock(id);
-            } else labels.insert("notify_without_lock");
+            } else { labels.insert("notify_without_lock"); unlocked_in_flight--; unlocked_epoch++; }
             break;
         }
         }
@@ -208,5 +213,6 @@ int main(int argc, char** argv) {
     h.run = run_case;
     h.desc = [](const Case& c) { return describe_common(c, opname); };
     h.fork_per_case = true;
+    h.persistent_child = true;     // a child serves cases until one ends abnormally (finish_now), then it is replaced
     return vf::pbt_main(argc, argv, h);
 }
